@@ -25,6 +25,11 @@ from typing import List, Optional, Set, Tuple
 from .fold import fold_in_fn
 from .model import Fn, ancestors, enclosing_stmt, parent, text, walk_fn
 
+class CaseFolded(list):
+    """Constants a text is compared with after its case was folded (lower / upper / casefold ...)."""
+    folded = True
+
+
 TRANSFORMS = {"upper", "lower", "strip", "lstrip", "rstrip", "split", "splitlines", "replace", "casefold", "title",
               "expandtabs", "encode", "rsplit", "partition", "format"}
 CLASS_PREDICATES = {"isupper", "islower", "isdigit", "isalpha", "isalnum", "isidentifier", "isspace", "istitle", "isnumeric"}
@@ -194,6 +199,10 @@ def classify(fn: Fn, node: ast.AST, depth=0, seen=None) -> List[Role]:
                 if not preserving:
                     # the length after strip / replace / ... depends on which characters the text contains
                     roles = [(("CONTENTWIDTH", m, at) if r == "WIDTH" else (r, d, at)) for r, d, at in roles]
+                if m in ("upper", "lower", "casefold", "title", "capitalize", "swapcase"):
+                    # a comparison made after folding the case matches more spellings than the constant it names
+                    roles = [((r, CaseFolded(d), at) if r == "LITERAL" and isinstance(d, (list, tuple, set, frozenset)) else (r, d, at))
+                             for r, d, at in roles]
                 return roles
             if m in ("startswith", "endswith"):
                 c = _consts(fn, gp.args[0]) if gp.args else None
@@ -334,7 +343,18 @@ def classify(fn: Fn, node: ast.AST, depth=0, seen=None) -> List[Role]:
             tgt = tgt.elts[1]              # (index, element): only the element carries the text
         return _follow_target(fn, tgt, p, depth, seen, element=True)
     if isinstance(p, ast.Return):
-        return [("RETURNED", fn.key, p)]
+        roles: List[Role] = [("RETURNED", fn.key, p)]
+        # ... and what the callers do with it: every resolved call site of this function is a use of the text
+        try:
+            from .calls import callgraph
+            from .model import program
+            cg = callgraph(program())
+            for c in cg.sites.get(fn.key, []):
+                if isinstance(c.node, ast.Call) and len(c.targets) == 1 and c.caller is not fn:
+                    roles += classify(c.caller, c.node, depth + 1, seen)
+        except Exception:       # pragma: no cover - the call graph is an optional refinement here
+            pass
+        return roles
     if isinstance(p, ast.Expr):
         return []
     if isinstance(p, ast.keyword):
